@@ -6,8 +6,10 @@ Type enum, field interface, atomic types
 package anytype
 
 import (
+	"fmt"
 	"math"
 	"strconv"
+	"strings"
 )
 
 /*
@@ -141,6 +143,45 @@ func native(value any) any {
 }
 
 /*
+Quotes a string as a JSON string literal.
+Only the characters JSON requires to be escaped are escaped, the rest is kept as is.
+Parameters:
+  - str - string to quote.
+
+Returns:
+  - JSON string literal.
+*/
+func quote(str string) string {
+	var result strings.Builder
+	result.WriteRune('"')
+	for _, char := range str {
+		switch char {
+		case '"', '\\':
+			result.WriteRune('\\')
+			result.WriteRune(char)
+		case '\b':
+			result.WriteString("\\b")
+		case '\f':
+			result.WriteString("\\f")
+		case '\n':
+			result.WriteString("\\n")
+		case '\r':
+			result.WriteString("\\r")
+		case '\t':
+			result.WriteString("\\t")
+		default:
+			if char < ' ' {
+				result.WriteString(fmt.Sprintf("\\u%04x", char))
+			} else {
+				result.WriteRune(char)
+			}
+		}
+	}
+	result.WriteRune('"')
+	return result.String()
+}
+
+/*
 Structure encapsulating a string value.
 Implements:
   - field.
@@ -190,7 +231,7 @@ Returns:
 */
 func (ego *atString) serialize() string {
 	val := ego.getVal().(string)
-	return strconv.Quote(val)
+	return quote(val)
 }
 
 /*
